@@ -54,6 +54,7 @@ const (
 type cfgOpts struct {
 	rfProto, abmfProto string
 	cgfOn              bool
+	keyLog             bool // the CHF is started with a TLS key log file (cmd/main.go: --log <path> gives <dir>/key/chfsslkey.log)
 }
 
 func parseCfgOpts(toks []string) (cfgOpts, bool) {
@@ -70,6 +71,11 @@ func parseCfgOpts(toks []string) (cfgOpts, bool) {
 			o.abmfProto = kv[1]
 		case "cgf":
 			o.cgfOn = kv[1] == "on"
+			if kv[1] != "on" && kv[1] != "off" {
+				return o, false
+			}
+		case "klog":
+			o.keyLog = kv[1] == "on"
 			if kv[1] != "on" && kv[1] != "off" {
 				return o, false
 			}
@@ -234,6 +240,13 @@ func genConfig(o genOpts, w *bufio.Writer) {
 			}
 		}
 	}
+	// started with a TLS key log file (a log file named on the command line): baseline and every single removal, both schemes
+	for _, sc := range []string{"http", "https"} {
+		fmt.Fprintf(w, "config run 0 %s ok klog=on\n", sc)
+		for i := 0; i < ciCount; i++ {
+			fmt.Fprintf(w, "config run %d %s ok klog=on\n", 1<<uint(i), sc)
+		}
+	}
 	r := &rng{s: o.seed}
 	extra := o.n
 	if o.tier == "thorough" {
@@ -250,8 +263,8 @@ func genConfig(o genOpts, w *bufio.Writer) {
 		emit(r.next()&(1<<ciCount-1)&r.next(), r.pickStr("http", "https", "https", "ftp", "none"), r.pickStr("ok", "ok", "ok", "unknown", "empty"))
 	}
 	for i := 0; i < extra; i++ {
-		fmt.Fprintf(w, "config run %d %s %s rfp=%s abp=%s cgf=%s\n", r.next()&(1<<ciCount-1)&r.next()&r.next(), r.pickStr("http", "https"),
-			r.pickStr("ok", "ok", "ok", "ok-all", "unknown"), r.pickStr("tcp", "sctp", "udp", "none"), r.pickStr("tcp", "sctp", "sctp", "none"), r.pickStr("on", "off"))
+		fmt.Fprintf(w, "config run %d %s %s rfp=%s abp=%s cgf=%s klog=%s\n", r.next()&(1<<ciCount-1)&r.next()&r.next(), r.pickStr("http", "https"),
+			r.pickStr("ok", "ok", "ok", "ok-all", "unknown"), r.pickStr("tcp", "sctp", "udp", "none"), r.pickStr("tcp", "sctp", "sctp", "none"), r.pickStr("on", "off"), r.pickStr("on", "off"))
 	}
 }
 
@@ -279,7 +292,15 @@ func runConfig(line string, t []string) string {
 		// cgf.OpenServer writes the FTP server's settings to this fixed path
 		defer os.Remove("/tmp/config.json")
 	}
-	cmd := exec.Command(os.Args[0], "config-child", f)
+	klog := ""
+	if opt.keyLog {
+		// what cmd/main.go initLogFile hands to service.NewApp when a log file is given on the command line
+		if err := os.MkdirAll(filepath.Join(dir, "key"), 0o775); err != nil {
+			panic(err)
+		}
+		klog = filepath.Join(dir, "key", "chfsslkey.log")
+	}
+	cmd := exec.Command(os.Args[0], "config-child", f, klog)
 	cmd.Env = append(os.Environ(), "GOTRACEBACK=none")
 	out, _ := cmd.Output()
 	s := strings.TrimSpace(string(out))
@@ -294,7 +315,7 @@ func runConfig(line string, t []string) string {
 
 // configChild: ReadConfig, then initialise the CHF the way cmd/main.go + service.Start do (without NRF
 // registration): context, rating server, account server, application with SBI server, SBI listener.
-func configChild(path string) {
+func configChild(path, tlsKeyLogPath string) {
 	logger.Log.SetOutput(io.Discard)
 	cfg, err := factory.ReadConfig(path)
 	if err != nil {
@@ -306,7 +327,7 @@ func configChild(path string) {
 	mongoapi.HookPutOne = store.putOne
 	var wg sync.WaitGroup
 	ctx := context.Background()
-	app, err := service.NewApp(ctx, cfg, "")
+	app, err := service.NewApp(ctx, cfg, tlsKeyLogPath)
 	if err != nil {
 		// a configuration that validates but cannot be used is a start-up failure, not a rejection
 		fmt.Println("crash: NewApp:", err)
